@@ -180,6 +180,30 @@ def run(verdict, tier):
                                   where=f"bounds={q} attribute={name}", detail={"int": a.tolist(), "float": b.tolist()})
                 break
     counters["int_dtype_cases"] = n_int
+    # ---- grid_units (pybads/search/grid_functions.py): the multi-point route into the transformer must give the
+    # same images whatever the dtype / number of rows of the point array --------------------------------------
+    from pybads.search.grid_functions import grid_units
+    n_gu = 0
+    for (lo, pl, pu, hi) in ((-4.0, -2.0, 2.0, 4.0), (0.0, 1.0, 3.0, 8.0), (1.0, 2.0, 500.0, 1000.0)):
+        vt2 = VariableTransformer(2, np.array([[lo, lo]]), np.array([[hi, hi]]), np.array([[pl, pl]]), np.array([[pu, pu]]))
+        base = np.array([[pl, pu], [lo + 1.0, hi - 1.0], [pl + 1.0, pl], [hi - 1.0, lo + 1.0]])
+        for dt, tol in ((np.float64, 1e-12), (np.int64, 1e-12), (np.float32, 1e-6)):
+            for nrows in (1, 2, 4):
+                X = base[:nrows].astype(dt)
+                n_gu += 1
+                try:
+                    U = np.asarray(grid_units(X, vt2), dtype=float)
+                    want = np.vstack([np.asarray(vt2(np.asarray(X[i:i + 1], dtype=float)), dtype=float) for i in range(nrows)])
+                    ok = U.shape == want.shape and np.allclose(U, want, rtol=0, atol=tol * (hi - lo))
+                except Exception as e:
+                    ok = False
+                    U = repr(e)[:100]
+                if not ok:
+                    verdict.violation("C11.round_trip", site="grid_units",
+                                      where=f"bounds=({lo},{pl},{pu},{hi}) dtype={np.dtype(dt).name} rows={nrows}",
+                                      detail={"got": U if isinstance(U, str) else U.tolist(),
+                                              "want": want.tolist() if not isinstance(U, str) else None})
+    counters["grid_units_cases"] = n_gu
     # ---- mixed transformers (D = 2, 3): the masking code ----------------------
     logs = [q for q in qs if groups[q]["mode"] == "log"]
     lins = [q for q in qs if groups[q]["mode"] == "lin"]
